@@ -82,11 +82,9 @@ def check_fmt(ctx):
   ctx.floor("FMT", "sample timestamps", k, 4)
 
   # the cue timing line: f"{self._begin} --> {self._end}" ; the reader splits on white space and needs >= 3 tokens with "-->" present
-  lits = []
-  for n in own_nodes(s_fn.node):
-    if isinstance(n, ast.JoinedStr) and "self._begin" in unparse(n) and "self._end" in unparse(n):
-      lits = [v.value for v in n.values if isinstance(v, ast.Constant)]
-  arrow_ok = any(l.strip() == "-->" and l.startswith((" ", "\t")) and l.endswith((" ", "\t")) for l in lits)
+  # (whatever builds the line: an f-string, a format string, a concatenation - the separator is a string constant of the function)
+  lits = [n.value for n in own_nodes(s_fn.node) if isinstance(n, ast.Constant) and isinstance(n.value, str) and "-->" in n.value]
+  arrow_ok = bool(lits) and all(re.search(r"[ \t]-->[ \t]", l) is not None for l in lits)
   ctx.check(arrow_ok, "FMT", "ttconv.vtt.cue:VttCue.__str__|arrow", ctx.where(s_fn.module, s_fn.node),
             "begin and end are separated by ' --> ' (white space on both sides: the reader splits the line on white space)",
             f"the timing line must separate begin and end by ' --> ' with white space on both sides; literals found: {lits}")
@@ -125,12 +123,9 @@ def check_fmt(ctx):
   # writer side: literal "key:" pieces of VttCue.__str__
   writer_keys = {}
   for n in own_nodes(s_fn.node):
-    if isinstance(n, ast.JoinedStr):
-      for i, v in enumerate(n.values):
-        if isinstance(v, ast.Constant):
-          for mm in re.finditer(r"\s([a-z]+):", v.value):
-            nxt = n.values[i + 1] if i + 1 < len(n.values) else None
-            writer_keys[mm.group(1)] = (n, nxt)
+    if isinstance(n, ast.Constant) and isinstance(n.value, str):
+      for mm in re.finditer(r"\s([a-z]+):", n.value):
+        writer_keys[mm.group(1)] = (n, None)
   ctx.floor("FMT", "cue-setting keys printed by VttCue.__str__", len(writer_keys), 2)
   for key, (node, nxt) in sorted(writer_keys.items()):
     ctx.check(key in reader_keys, "FMT", f"ttconv.vtt.cue:VttCue.__str__|setting-key|{key}", ctx.where(s_fn.module, node),
@@ -476,11 +471,25 @@ def run(ctx):
   # every local that ends up in a style of the region (looked up or set) must have its final value before another
   # setting block consults it: `position` anchors with the extent that `size` and `line` decide, `align` reads the writing mode, ...
   result_vars = set()
+  from ..rules import match as _m
+  from ..core import ancestors as _anc
+  ldefs = _m.local_defs(gr.node)
+
+  def through_rows(call, name):
+    """a loop variable over a local table of (property, value) rows stands for the names in its column"""
+    for lp in _anc(call):
+      if isinstance(lp, ast.For) and isinstance(lp.target, (ast.Tuple, ast.List)) and \
+          ((isinstance(lp.iter, ast.Name) and len(ldefs.get(lp.iter.id, [])) == 1) or isinstance(lp.iter, (ast.Tuple, ast.List))):
+        tn = [t.id if isinstance(t, ast.Name) else None for t in lp.target.elts]
+        tab = ldefs[lp.iter.id][0] if isinstance(lp.iter, ast.Name) else lp.iter
+        if name in tn and isinstance(tab, (ast.Tuple, ast.List)) and all(isinstance(r, (ast.Tuple, ast.List)) and len(r.elts) == len(tn) for r in tab.elts):
+          return {x.id for r in tab.elts for x in ast.walk(r.elts[tn.index(name)]) if isinstance(x, ast.Name) and isinstance(x.ctx, ast.Load)}
+    return {name}
   for c in own_nodes(gr.node):
     if isinstance(c, ast.Call) and isinstance(c.func, ast.Attribute) and c.func.attr == "set_style" and len(c.args) == 2:
-      result_vars |= {n.id for n in ast.walk(c.args[1]) if isinstance(n, ast.Name) and isinstance(n.ctx, ast.Load)}
-  from ..rules import match as _m
-  ldefs = _m.local_defs(gr.node)
+      for n in ast.walk(c.args[1]):
+        if isinstance(n, ast.Name) and isinstance(n.ctx, ast.Load):
+          result_vars |= through_rows(c, n.id)
   for _ in range(3):      # through locals that only package other locals (extent = ExtentType(height=..extent_height.., ...))
     result_vars |= {n.id for v in list(result_vars) if len(ldefs.get(v, [])) == 1 for n in ast.walk(ldefs[v][0]) if isinstance(n, ast.Name) and isinstance(n.ctx, ast.Load)}
   top_stores = {n.id for st in gr.node.body for n in ast.walk(st) if isinstance(n, ast.Name) and isinstance(n.ctx, ast.Store)}
